@@ -107,6 +107,8 @@ proof fn lemma_fields2<A: DeserializeInner, B: DeserializeInner, S>(s: Seq<u8>, 
 //@end
 //@item @types name=G2 <<pub struct G2<T, U> {>>
 //@end
+//@item @types name=GM <<pub struct GM<T> {>>
+//@end
 
 //@item @derive props=C01,C02,C05,C11,C15 name=E1::DeserializeInner <<impl epserde::deser::DeserializeInner for E1<> where>>
 //@  replace <<use epserde::deser::DeserializeInner;>> <<>>
@@ -239,3 +241,25 @@ pub open spec fn fields3<A: DeserializeInner, B: DeserializeInner, C: Deserializ
 //@  ret r
 //@end
 
+
+// GM<T>: the parameter is only *mentioned* (`v: Vec<T>`): the field keeps its type and is
+// fully copied also in eps-copy mode (C05 substitution rule) - proved for every T such that
+// Vec<T> obeys the trait-level contract (which V-DESER proves for the Vec implementations)
+//@item @derive props=C01,C02,C05,C11 name=GM::DeserializeInner <<impl<T> epserde::deser::DeserializeInner for GM<T> where>>
+//@  replace <<use epserde::deser::DeserializeInner;>> <<>>
+//@  replace <<epserde::deser::>> <<>>
+//@  body_prefix
+//@|    open spec fn parse(s: Seq<u8>, pos: nat) -> PR<Self> {
+//@|        fields2::<Vec<T>, u16, Self>(s, pos, |v: Vec<T>, n: u16| GM { v, n })
+//@|    }
+//@|    /// nothing is borrowed: the eps-copy result is the value itself
+//@|    open spec fn eps_rel<'a>(d: GM<T>, v: Self) -> bool { d == v }
+//@|    proof fn lemma_prefix(s: Seq<u8>, pos: nat, k: nat) {
+//@|        lemma_fields2::<Vec<T>, u16, Self>(s, pos, k, |v: Vec<T>, n: u16| GM { v, n });
+//@|    }
+//@  sub <<fn _deserialize_full_inner(backend:>>
+//@  impl_arg
+//@  ret r
+//@  sub <<fn _deserialize_eps_inner<'deserialize_eps_inner_lifetime>(backend:>>
+//@  ret r
+//@end
